@@ -639,7 +639,9 @@ func (op *ShellOperator) taskHandleHookRun(t task.Task) queue.TaskResult {
 	}
 
 	// Unlock Kubernetes events for all monitors when Synchronization task is done.
-	if isSynchronization && res.Status == "Success" {
+	// A retried task may not start with a Synchronization binding context anymore: contexts of combined tasks
+	// are compacted by group. It still has monitor IDs of combined Synchronization tasks.
+	if (isSynchronization || len(hookMeta.MonitorIDs) > 0) && res.Status == "Success" {
 		taskLogEntry.Info("Unlock kubernetes.Event tasks")
 		for _, monitorID := range hookMeta.MonitorIDs {
 			taskHook.HookController.UnlockKubernetesEventsFor(monitorID)
